@@ -41,6 +41,10 @@ theorem C19_checkMode_valid (s : List Char) (h : checkModeL table s = true) : Va
   simp [table, Jap.Gen.pathFlagExcl] at hexcl
   refine ⟨hc, ?_, ?_, ?_⟩ <;> simp [Mode.ofList] <;> grind
 
+/-- the same for the `str` the caller passes -/
+theorem C19_checkMode_string (s : String) (h : checkMode table s = true) : ValidMode (Mode.ofString s) :=
+  C19_checkMode_valid s.toList h
+
 /-- and conversely every string over the alphabet with at most two `c`, no other
 repetition and none of the three excluded pairs is accepted -/
 theorem C19_checkMode_complete (s : List Char)
@@ -151,14 +155,6 @@ theorem C19_stdio (m : Mode) (e cwd : P) (a : Facts) : (construct m ['-'] e cwd 
   simp [construct]
 
 /-! ## absolute / relative -/
-
-theorem isAbs_append {a b : P} (h : isAbs a = true) : isAbs (a ++ b) = true := by
-  cases a with
-  | nil => simp [isAbs] at h
-  | cons c t =>
-    by_cases hc : c = '/'
-    · subst hc; simp [isAbs]
-    · unfold isAbs at h; split at h <;> simp_all
 
 /-- `relative` is the original spelling; `absolute` is the expanded spelling when
 that is absolute, else `os.path.join(cwd, expanded)`; it is absolute whenever the
